@@ -294,8 +294,66 @@ def run_entry(check: Check, repo: Repo, entry: str, allowed: set[str], rule: str
             check.oblige(rule, site.func, f"{site.kind} {site.expr}: triaged safe — {tri[1]}", True)
             check.count("triaged_safe_sites")
             continue
-        escaping += 1
-        sig = f"{site.exc} from {site.kind} {site.expr} can escape"
+        # Not discharged by an idiom, a machine-checked rule or the triage table.  A may-raise site is not a
+        # demonstrated escape: it is decided on the program model (sa/ordabs.py COVERAGE) - discharged when the model
+        # families that cover this entry executed the construct and it never raised, a violation when they show it
+        # raising (the model point is the witness), undecided when they never reach it.
+        cov = model_coverage(repo, entry)
+        qual = site.func.split("::")[-1]
+        got = cov.get((qual, site.kind, site.expr)) or (cov.get((qual, site.kind, site.expr[:80])) if site.kind == "call" else None)
         chain_txt = " > ".join(c.split("::")[-1] for c in chain)
-        check.oblige(rule, site.func, sig, False, finding=Finding(rule, site.func, sig, f"{site.exc} raised at {site.func.split('::')[-1]} ({site.kind}: {site.expr}) is not handled on the call chain {chain_txt}", {"chain": chain, "entry": entry}))
+        if got and got["raise"] == 0 and got["ok"] > 0:
+            check.oblige(rule, site.func, f"{site.kind} {site.expr}: executed {got['ok']} times on the program model without raising", True)
+            check.count("sites_discharged_on_the_model")
+            continue
+        if got and got["raise"] > 0:
+            escaping += 1
+            sig = f"{site.exc} from {site.kind} {site.expr} can escape"
+            check.oblige(rule, site.func, sig, False, finding=Finding(rule, site.func, sig, f"{site.exc} raised at {qual} ({site.kind}: {site.expr}) is not handled on the call chain {chain_txt}; the program model raises there on {got['raise']} of {got['raise'] + got['ok']} evaluations", {"chain": chain, "entry": entry}))
+            continue
+        check.defer_error(f"{site.func}: {site.exc} at {site.kind} `{site.expr}` may escape on the call chain {chain_txt}; no guard idiom, rule or triage entry discharges it and the program model never evaluates it: not decided")
     return len(sites), escaping
+
+
+_COV_DONE: dict[str, bool] = {}
+
+
+def model_coverage(repo: Repo, entry: str) -> dict:
+    """Run (once per process and entry family) the program-model suites whose families cover what the entry reaches,
+    and return the coverage they recorded.  Only called when some site is left undischarged - on a tree where every
+    site is discharged statically this costs nothing."""
+    from . import ordabs  # noqa: PLC0415
+
+    fam = "render" if "exceptions.py" in entry or "Error." in entry else "load" if "from_grammar" in entry or "/grammar/" in entry else "parse"
+    if not _COV_DONE.get(fam):
+        _COV_DONE[fam] = True
+        suites: list = []
+        if fam == "load":
+            from . import frontsem, optsem, squashsem, tokparse, unescsem, unrollsem  # noqa: PLC0415
+
+            suites = [
+                lambda: frontsem.check_front_end(repo, "coverage", False), lambda: tokparse.check_structure(repo, "coverage"), lambda: tokparse.check_rules(repo, "coverage"),
+                lambda: unescsem.check_decoder(repo, "coverage"), lambda: optsem.check_pipeline(repo, "coverage"), lambda: optsem.check_skip_pass(repo, "coverage"),
+                lambda: squashsem.check_squash(repo, "coverage", ["k", "K", "\u212a", "."], 2, False), lambda: unrollsem.check_unroll_pass(repo, "coverage"),
+                lambda: squashsem.check_inline_silent(repo, "coverage"), lambda: squashsem.check_inline_builtin(repo, "coverage"),
+            ]
+        elif fam == "parse":
+            from . import failsem, gensem, ops, opsem, squashsem, termsem, triviasem  # noqa: PLC0415
+
+            suites = [
+                lambda: opsem.check_operators(repo, "coverage", "quick"), lambda: gensem.check_gen(repo, "coverage", ops.modifier_masks(repo), False),
+                lambda: termsem.check_terminals(repo, "coverage", False), lambda: triviasem.check_trivia(repo, "coverage"), lambda: failsem.check_fail(repo, "coverage", False),
+                lambda: squashsem.check_squash(repo, "coverage", ["k", "K", "\u212a", "."], 2, False), lambda: opsem.check_ctx_managers(repo, "coverage"),
+            ]
+        else:
+            from . import failsem, linesem  # noqa: PLC0415
+
+            suites = [lambda: linesem.check_error_context(repo, "coverage"), lambda: linesem.check_grammar_error_context(repo, "coverage"), lambda: failsem.check_fail(repo, "coverage", False)]
+        for run in suites:
+            try:
+                run()
+            except AnalysisError:
+                pass  # a suite that cannot model the changed code contributes no coverage; the site stays undecided
+            except Exception:  # noqa: BLE001, S110
+                pass
+    return ordabs.COVERAGE
